@@ -72,19 +72,19 @@ func topLevelNames(text string) (names []string, ok bool) {
 // ---------- value cases ----------
 
 type ValueCase struct {
-	Prins     []string
-	PrinsNil  bool
-	TransID   string
-	ReqUser   string
-	ReqIP     string
-	ReqHost   string
-	FF        bool
-	HW        bool
-	Headless  bool
-	Nonce     bool
-	Usage     int
-	Touch     int
-	Version   uint16
+	Prins    []string
+	PrinsNil bool
+	TransID  string
+	ReqUser  string
+	ReqIP    string
+	ReqHost  string
+	FF       bool
+	HW       bool
+	Headless bool
+	Nonce    bool
+	Usage    int
+	Touch    int
+	Version  uint16
 }
 
 func (c ValueCase) keyID() *keyid.KeyID {
